@@ -20,7 +20,6 @@ fn fwd(op: &Op, _ctx: &dyn Context, operands: &mut dyn CoordinateSet) -> usize {
     };
     let Ok(d) = op.params.real("d") else { return 0 };
 
-    let oblique = op.params.boolean("oblique");
     let north_polar = op.params.boolean("north_polar");
     let south_polar = op.params.boolean("south_polar");
 
@@ -63,12 +62,8 @@ fn fwd(op: &Op, _ctx: &dyn Context, operands: &mut dyn CoordinateSet) -> usize {
         let xi = (ancillary::qs(lat.sin(), e) / qp).asin();
         let (sin_xi, cos_xi) = xi.sin_cos();
 
-        let b = if oblique {
-            let factor = 1.0 + sin_xi_0 * sin_xi + (cos_xi_0 * cos_xi * cos_lon);
-            rq * (2.0 / factor).sqrt()
-        } else {
-            1.0
-        };
+        let factor = 1.0 + sin_xi_0 * sin_xi + (cos_xi_0 * cos_xi * cos_lon);
+        let b = rq * (2.0 / factor).sqrt();
 
         let easting = x_0 + (b * d) * (cos_xi * sin_lon);
         let northing = y_0 + (b / d) * (cos_xi_0 * sin_xi - sin_xi_0 * cos_xi * cos_lon);
@@ -229,10 +224,8 @@ pub fn new(parameters: &RawParameters, _ctx: &dyn Context) -> Result<Op, Error> 
     // Rq in the IOGP text
     let rq = a * (0.5 * qp).sqrt();
     // D in the IOGP text
-    let d = if oblique {
+    let d = if oblique || equatorial {
         a * (cos_phi_0 / (1.0 - es * sin_phi_0 * sin_phi_0).sqrt()) / (rq * xi_0.cos())
-    } else if equatorial {
-        rq.recip()
     } else {
         a
     };
